@@ -30,6 +30,7 @@ type scCase struct {
 	ReadFaultAt int    `json:"readFaultAt"`
 	SendFaultAt int    `json:"sendFaultAt"`
 	GetFaultAt  int    `json:"getFaultAt"`
+	GetSilent   bool   `json:"getSilent"`
 	FaultStyle  string `json:"faultStyle"` // hook | missing   (how the read fault is produced)
 	Shape       string `json:"shape"`      // flat | dir
 }
@@ -39,6 +40,7 @@ type scServer struct {
 	store     map[string][]byte
 	abortPut  int // abort the connection after reading this many bytes of a PUT body (0 = never)
 	truncGet  int // send only this many bytes of a GET body, then drop the connection (0 = never)
+	silentGet bool // ... but as a complete, shorter response (clean end)
 	putClean  int
 	putBroken int
 }
@@ -82,6 +84,11 @@ func (s *scServer) ServeHTTP(w http.ResponseWriter, r *http.Request) {
 		s.mu.Unlock()
 		if !ok {
 			w.WriteHeader(http.StatusNotFound)
+			return
+		}
+		if s.truncGet > 0 && s.truncGet < len(b) && s.silentGet {
+			w.WriteHeader(http.StatusOK)
+			w.Write(b[:s.truncGet])
 			return
 		}
 		if s.truncGet > 0 && s.truncGet < len(b) {
@@ -201,6 +208,14 @@ func streamCacheEngine(args []string) error {
 		if c.GetFaultAt > 0 {
 			if c.Kind == "http" {
 				srv.truncGet = 40 * c.GetFaultAt
+				srv.silentGet = c.GetSilent
+			} else if c.GetSilent {
+				// the retrieve command prints the archive only up to an entry boundary and exits 0
+				off := 0
+				for i := 0; i < c.GetFaultAt-1 && i < len(sizes); i++ {
+					off += 512 + (sizes[i]+511)/512*512
+				}
+				state.Config.Cache.RetrieveCommand = fmt.Sprintf("head -c %d %s/$CACHE_KEY", off, cmdDir)
 			} else {
 				// the retrieve command fails partway: it prints the first entries and exits non-zero
 				off := 0
